@@ -1,5 +1,7 @@
         ensures
             final(self).instruction_count == (if old(self).instruction_count == u32::MAX { u32::MAX } else { (old(self).instruction_count + 1) as u32 }),
             dbg_frame(*old(self), *final(self)), final(self).status == old(self).status,
-            final(self).breakpoints == old(self).breakpoints, final(self).current_breakpoint == old(self).current_breakpoint,
+            final(self).breakpoints == old(self).breakpoints,
+            // C11: the marked instruction is about to execute, so the breakpoint is armed again
+            final(self).current_breakpoint is None,
             final(self).command_reader == old(self).command_reader,
